@@ -412,6 +412,15 @@ Section Pinv.
   Qed.
 End Pinv.
 
+(* non-vacuity of the hypothesis: a 1 x 1 pseudo-inverse (reciprocal, or 0 for the zero matrix) *)
+Definition pinv1 (A : nmat) : nmat := fun _ _ => if Req_EM_T (A O O) 0 then 0 else / A O O.
+Lemma pinv1_penrose A : penrose 1 A (pinv1 A).
+Proof.
+  unfold penrose, meq, msym, mmul, pinv1. simpl.
+  repeat split; intros i j Hi Hj; assert (i = O) by lia; assert (j = O) by lia; subst; try reflexivity;
+    destruct (Req_EM_T (A O O) 0) as [e|ne]; try rewrite e; try ring; field; exact ne.
+Qed.
+
 (* ------------------------------------------------------------------ T08f: rows of the compiled table *)
 Open Scope string_scope.
 
